@@ -1572,8 +1572,15 @@ def rule_byte_predicates(col, facts):
         try:
             got = [c for c in range(256) if tbl_eval(facts, f, [c]).value]
         except NotATable as e:
-            col.bad(R, last_seg(name) + "-shape", "no longer a pure comparison predicate (%s): cannot tabulate (fail closed)" % e, f.loc())
-            continue
+            # not a pure chain of comparisons: read it as the decision table of its paths (bit masks, the standard
+            # library's ASCII classes)
+            from rules.pathmodel import Model, Shape as _Shape, Panic as _Panic
+            try:
+                m_ = Model(f, "u8")
+                got = [c for c in range(256) if m_.value([c])]
+            except (_Shape, _Panic) as e2:
+                col.bad(R, last_seg(name) + "-shape", "no longer a predicate over the byte that can be tabulated (%s; %s) (fail closed)" % (e, e2), f.loc())
+                continue
         extra = sorted(set(got) - set(exp))
         missing = sorted(set(exp) - set(got))
         col.check(R, last_seg(name), not extra and not missing,
